@@ -129,11 +129,11 @@ type msgInfo struct {
 }
 
 type stepOut struct {
-	obs     []*gossipv1.SignedObservation
-	vaas    [][]byte
-	reqs    []*gossipv1.ObservationRequest
-	changed map[string][2][]byte // id string -> old,new
-	quorumEvents [][]byte        // VAAs announced to AttestationEventReporter subscribers (VAAQuorum), re-encoded
+	obs          []*gossipv1.SignedObservation
+	vaas         [][]byte
+	reqs         []*gossipv1.ObservationRequest
+	changed      map[string][2][]byte // id string -> old,new
+	quorumEvents [][]byte             // VAAs announced to AttestationEventReporter subscribers (VAAQuorum), re-encoded
 }
 
 type penv struct {
@@ -156,7 +156,7 @@ type penv struct {
 	ids      map[string]vaa.VAAID
 	events   *reporter.AttestationEventReporter
 	quorumC  <-chan *vaa.VAA
-	faultDB  bool   // the processor's store handle was replaced by one that fails every call
+	faultDB  bool // the processor's store handle was replaced by one that fails every call
 	faultDir string
 }
 
